@@ -122,12 +122,14 @@ pub struct Oracles {
     pub readers_frozen: bool,
     /// with `fileck`: layout deviations no reader depends on are violations too (write-side conformance)
     pub strict_layout: bool,
+    /// with `fileck`: after each commit the other header slot must hold the predecessor's valid header
+    pub both_headers: bool,
     /// the write transaction itself is dumped (cursor scans of every bucket) right before commit / drop
     pub dump_in_tx: bool,
 }
 
 impl Oracles {
-    pub const NONE: Oracles = Oracles { rets: false, dump_after: false, reopen_copy: false, probe_each_op: None, probe_after_commit: None, fileck: false, dbcheck: false, no_trace: false, readers_frozen: false, strict_layout: false, dump_in_tx: false };
+    pub const NONE: Oracles = Oracles { rets: false, dump_after: false, reopen_copy: false, probe_each_op: None, probe_after_commit: None, fileck: false, dbcheck: false, no_trace: false, readers_frozen: false, strict_layout: false, both_headers: false, dump_in_tx: false };
 }
 
 #[derive(Clone, Debug)]
@@ -380,6 +382,10 @@ impl Runner {
                     self.last_shape = rep.shape;
                     for e in rep.errors.iter().take(3) {
                         out.push(Violation::new("fileck", format!("{}: independent file check: {}", what, e)));
+                    }
+                    // after a commit both header slots are valid: this commit's and its predecessor's
+                    if or.both_headers && rep.tx_id >= 1 && rep.other_tx_id != Some(rep.tx_id - 1) {
+                        out.push(Violation::new("header_slots", format!("{}: after the commit with transaction id {} the other header slot holds {} instead of the valid header of transaction {}", what, rep.tx_id, rep.other_tx_id.map(|t| format!("transaction {}", t)).unwrap_or_else(|| "no valid header".into()), rep.tx_id - 1)));
                     }
                     if or.strict_layout {
                         for e in rep.layout_notes.iter().take(3) {
@@ -662,6 +668,13 @@ impl Runner {
                         if got != want {
                             let class = if matches!(want, Ret::Err(ErrKind::ReadOnlyTx)) { "ro_mutator_not_refused" } else { "ret_mismatch" };
                             out.push(Violation::new(class, format!("read-only tx: op {} `{}` returned {:?}, expected {:?}", i, ops[i].to_json(), brief_ret(&got), brief_ret(&want))));
+                        }
+                        // the same through a handle obtained from the listing iterators
+                        if let Some(got2) = real::exec_op_listed(&tx, op) {
+                            if got2 != want {
+                                let class = if matches!(want, Ret::Err(ErrKind::ReadOnlyTx)) { "ro_mutator_not_refused" } else { "ret_mismatch" };
+                                out.push(Violation::new(class, format!("read-only tx: op {} `{}` through a bucket handle taken from buckets() returned {:?}, expected {:?}", i, ops[i].to_json(), brief_ret(&got2), brief_ret(&want))));
+                            }
                         }
                     }
                     // the reader must still see the committed state after the refused mutators
